@@ -11,7 +11,7 @@ from ..common import REPO, ROOT, Check, case_rng, import_ws, parse_resp, pmap, r
 
 STATS = ["hs", "tm01", "tm02", "dm", "dspr", "tp", "dp", "dpm", "dpspr", "swe", "momd", "oned", "smooth", "interp", "ptm3",
          "split", "crsd", "gamma", "to_energy", "rotate", "hrms", "sw", "gw", "goda", "alpha", "fp", "uss", "mss", "stats_band",
-         "scale_by_hs", "smooth5", "ptm5", "bbox", "momf"]
+         "scale_by_hs", "smooth5", "ptm5", "bbox", "momf", "hp01", "hp01"]
 
 
 def build(freq, dirs, E, kind, name="efth", attrs=None):
@@ -74,6 +74,9 @@ def observe(obj, name, via):
         return canon(sp.partition.bbox([dict(fmin=float(f[0]), fmax=float(f[2]), dmin=0.0, dmax=170.0)]))
     if name == "momf":
         return canon(sp.momf(2))
+    if name == "hp01":
+        # more swells requested than a smooth spectrum has: the padding partitions are all-zero arrays
+        return canon(sp.partition.hp01(swells=3))
     if name == "gamma":
         return canon(sp.gamma())
     if name == "to_energy":
@@ -445,6 +448,12 @@ def run_check():
             ev, dv, known, fv = (int(x) for x in pred.split(":"))
             ck.case((h["kind"], kindop, name, edits_before, tuple(o.split(":")[0] for o in h["ops"][:i])[-3:]), edits_before,
                     sample=dict(ops=h["ops"][: i + 1], predicted_versions=pred))
+            if isinstance(res, str) and name == "hp01":
+                # experimental method: raising on some valid spectra is outside the properties; what matters here is that it
+                # does the same in a pristine process
+                fresh_jobs.append((dict(freq=h["fvers"][fv].tolist(), dirs=h["dvers"][dv].tolist(), E=h["evers"][ev].tolist(), kind=h["kind"],
+                                        name=name, via=kindop), res, name, dict(case, step=i)))
+                continue
             if isinstance(res, str):
                 ck.fail(name, f"observed operation raised: {res}", dict(case, step=i), "crash")
                 continue
@@ -496,11 +505,43 @@ def run_check():
         ck.count("fresh_process_observations")
         if not same(res, exp):
             ck.fail(name, "result differs from the same call in a fresh process", dict(ops=h["ops"], step=i), "stale_result")
+    oned_agreement(ck)
     ck.extra["observations"] = nobs
     ck.extra["traces_validated_against_impl"] = len(hs)
     ck.assumptions = ["object contents abstracted to version numbers in the model; the harness materialises each version",
                       "results compared bit-for-bit (same code path on identical data), attrs and coordinates included"]
     return ck.finish()
+
+
+def oned_agreement(ck):
+    """After `ds['efth'] = ds.efth.spec.oned()` (the variable replaced in place by its frequency spectrum; xarray keeps the now
+    unused `dir` coordinate on the Dataset) the Dataset accessor agrees with the accessor of its efth variable."""
+    rng = ck.rng
+    for it in range(6 if ck.tier == "quick" else 60):
+        nf, nd = rng.choice([5, 8]), rng.choice([8, 12])
+        freq, _ = gen.gen_freq(rng, nf, kind="irregular")
+        dirs, _ = gen.gen_dirs(rng, nd, order="sorted")
+        E = np.array([gen.gen_spectrum(rng, nf, nd, kind="blobs")[0] + 0.015625 for _ in range(2)])
+        ds = build(freq, dirs, E, "ds")
+        if rng.random() < 0.5:
+            ds.spec.hs()                      # the accessor exists before the edit
+        ds["efth"] = ds.efth.spec.oned()
+        case = dict(freq=freq.tolist(), dirs=dirs.tolist(), nf=nf, nd=nd)
+        ck.case(("oned_edit", nf, nd), True, sample=dict(op="ds['efth'] = oned", nf=nf, nd=nd))
+        probes = {"dir": lambda sp: None if sp.dir is None else [float(x) for x in np.asarray(sp.dir.values)],
+                  "freq": lambda sp: [float(x) for x in np.asarray(sp.freq.values)],
+                  "hs": lambda sp: np.asarray(sp.hs().values, dtype=float).tolist(), "tp": lambda sp: np.asarray(sp.tp().values, dtype=float).tolist(),
+                  "tm01": lambda sp: np.asarray(sp.tm01().values, dtype=float).tolist(),
+                  "oned": lambda sp: np.asarray(sp.oned().values, dtype=float).tolist()}
+        for nm, f in probes.items():
+            def run(sp):
+                try:
+                    return f(sp)
+                except Exception as e:
+                    return f"EXC {type(e).__name__}"
+            a, b = run(ds.spec), run(ds["efth"].spec)
+            if a != b and not (isinstance(a, list) and isinstance(b, list) and np.array_equal(np.asarray(a, dtype=float), np.asarray(b, dtype=float), equal_nan=True)):
+                ck.fail(nm, f"after ds['efth'] = oned(): ds.spec.{nm} = {str(a)[:80]} but ds.efth.spec.{nm} = {str(b)[:80]}", case, "dataset_vs_efth")
 
 
 def count(ops, k):
